@@ -6,7 +6,7 @@ CONSTANTS
   MaxOps = 2
   MaxPlan = 2
   Delays = {0, 1}
-  Kinds = {"sleep", "spawn", "interrupt", "yield", "raise"}
+  Kinds = {"sleep", "spawn", "interrupt", "interruptn", "yield", "raise"}
   PlanKinds = {"run"}
   UntilTimes = {1}
   Catches = {0, 1}
